@@ -1,9 +1,9 @@
 CONSTANTS
  NodeIds = {"n1", "n2", "n3", "n4", "n5", "n6"}
- LinkIds = {"l1", "l2", "l3", "l4", "l5"}
- OrigIds = {"o1", "o2", "r1", "r2"}
- RampIds = {"r1", "r2"}
- DestIds = {"d1", "d2", "d3"}
+ LinkIds = {"l1", "l2", "l3", "l4", "l5", "l6"}
+ OrigIds = {"o1", "o2", "o3", "o4", "r1", "r2", "r3", "r4"}
+ RampIds = {"r1", "r2", "r3", "r4"}
+ DestIds = {"d1", "d2", "d3", "d4"}
  NameOf <- TraceNameOf
  InvalImplicitNodes = TRUE
  DestNameWrite = FALSE
